@@ -90,6 +90,10 @@ static int spur_budget, pspur = 10, ptick = 5;
 static int sig_pending = 0;          /* signal waiting to be taken by sigwait */
 static struct { int signo; long at; int done; } sigs[16]; static int nsigs;
 static long idle_ticks;
+/* preemption-bounded mode (SCHED_PB="k1@c1,k2@c2,..."): base policy = keep running the thread that ran last
+ * while it is enabled, else the lowest-numbered enabled thread; clock ticks only when nothing else can move;
+ * at choice point number k_j the c_j-th legal action (threads first, then optional actions) is taken instead */
+static int pb_mode; static struct { long k; int c; } pb[8]; static int npb; static long choice_no; static int last_thread = 0;
 static long max_steps = 400000;   /* SCHED_MAXSTEP: a run that needs more is reported as STEPLIMIT (e.g. waiting for ever on a hung host with no command timeout) */
 
 static uint64_t rnd(void)
@@ -258,6 +262,20 @@ static int op_enabled(int k)
 /* an action is encoded as: >= 0 thread id; -1 tick; -2 - k spurious wake of thread k; -1000 - i deliver signal i */
 static int next_choice(int *acts, int n)
 {
+    if (pb_mode) {
+        choice_no++;
+        for (int j = 0; j < npb; j++)
+            if (pb[j].k == choice_no) {
+                if (pb[j].c < n) return acts[pb[j].c];
+                tr("PB-OOB %ld %d of %d", choice_no, pb[j].c, n);
+                if (trace) fflush(trace);
+                _exit(96);
+            }
+        for (int i = 0; i < n; i++) if (acts[i] == last_thread) return last_thread;
+        for (int i = 0; i < n; i++) if (acts[i] >= 0) return acts[i];      /* acts lists threads in increasing order */
+        for (int i = 0; i < n; i++) if (acts[i] == -1) return -1;
+        return acts[0];
+    }
     if (replay) {
         char buf[64];
         if (fgets(buf, sizeof buf, replay)) {
@@ -294,10 +312,10 @@ static int schedule(void)
             /* optional extras: spurious wake-ups, ticks, signals */
             if (spur_budget > 0)
                 for (int k = 0; k < nthr; k++)
-                    if (T[k].used && !T[k].done && T[k].op == OP_RELOCK && !T[k].woken && (replay || (int)(rnd() % 100) < pspur))
+                    if (T[k].used && !T[k].done && T[k].op == OP_RELOCK && !T[k].woken && (replay || pb_mode || (int)(rnd() % 100) < pspur))
                         acts[n++] = -2 - k;
             /* when replaying, every legal action is on offer: the file decides */
-            if (sleepers && (replay || (int)(rnd() % 100) < ptick)) acts[n++] = -1;
+            if (sleepers && (replay || pb_mode || (int)(rnd() % 100) < ptick)) acts[n++] = -1;
         } else {
             if (spur_budget > 0)
                 for (int k = 0; k < nthr; k++)
@@ -306,13 +324,13 @@ static int schedule(void)
             if (sleepers && progress_possible && idle_ticks < 100000) acts[n++] = -1;
         }
         for (int i = 0; i < nsigs; i++)
-            if (!sigs[i].done && (replay || step >= sigs[i].at) && !sig_pending) { acts[n++] = -1000 - i; }
+            if (!sigs[i].done && (replay || pb_mode || step >= sigs[i].at) && !sig_pending) { acts[n++] = -1000 - i; }
         if (n == 0) die_deadlock();
         {
             int a = next_choice(acts, n);
             step++;
             if (step > max_steps) { tr("STEPLIMIT"); if (trace) fflush(trace); _exit(98); }
-            if (a >= 0) { idle_ticks = 0; tr("RUN %d", a); return a; }
+            if (a >= 0) { idle_ticks = 0; last_thread = a; tr("RUN %d", a); return a; }
             if (a == -1) { vclock++; idle_ticks++; tr("TICK %ld", vclock); continue; }
             if (a <= -1000) {
                 int i = -1000 - a;
@@ -677,6 +695,15 @@ int main(int argc, char **argv)
     if ((s = getenv("SCHED_PSPUR"))) pspur = atoi(s);
     if ((s = getenv("SCHED_PTICK"))) ptick = atoi(s);
     if ((s = getenv("SCHED_MAXSTEP"))) max_steps = atol(s);
+    if ((s = getenv("SCHED_PB"))) {
+        char *dup = strdup(s), *save = NULL;
+        pb_mode = 1;
+        for (char *p = strtok_r(dup, ",", &save); p && npb < 8; p = strtok_r(NULL, ",", &save)) {
+            char *at = strchr(p, '@');
+            if (!at) continue;
+            pb[npb].k = atol(p); pb[npb].c = atoi(at + 1); npb++;
+        }
+    }
     if ((s = getenv("SCHED_SIGS"))) {
         char *dup = strdup(s), *save = NULL;
         for (char *p = strtok_r(dup, ",", &save); p && nsigs < 16; p = strtok_r(NULL, ",", &save)) {
